@@ -3,6 +3,7 @@ package main
 import (
 	"fmt"
 	"go/token"
+	"sort"
 	"strings"
 
 	"golang.org/x/tools/go/ssa"
@@ -295,6 +296,61 @@ func ruleErrFlow(c *Ctx, r *Reporter) {
 				}
 			}
 			r.checkP([]string{"C15"}, nAdd > 0 && stale == "", "reconciler.(incremental).commitStatus|retry uses the version that was written", c.posStr(cs.Pos()), "after the fallback Insert the retry is queued with the inserted object, otherwise with the reconciled one", "after the status was written onto a newer version of the object (same-pending-id fallback Insert) the retry is still queued with result.original, but with the new revision: when the retry succeeds its status commit passes the revision check and writes the stale version back over the newer one (another reconciler's status is reverted, newer data is lost)")
+		}
+		// Objects in Error are processed only through the retry queue (single()/batch() skip them),
+		// and processSingle forgets the retry on success: the result of a retry whose status commit
+		// lost the revision check must therefore still be applied while the table shows this
+		// reconciler's own Error - otherwise the object stays in Error with nothing queued.
+		{
+			applied := false
+			for _, ia := range allInstrs(cs) {
+				bo, ok := ia.In.(*ssa.BinOp)
+				if !ok || bo.Op != token.EQL {
+					continue
+				}
+				isErrKind := func(v ssa.Value) bool {
+					if a, ok := isLoad(v); ok {
+						if g, ok := a.(*ssa.Global); ok && g.Name() == "StatusKindError" {
+							return true
+						}
+					}
+					return false
+				}
+				isKind := func(v ssa.Value) bool {
+					if a, ok := isLoad(v); ok {
+						if fa, ok := a.(*ssa.FieldAddr); ok {
+							if tn, f, _ := fieldOf(fa); tn == "Status" && f == "Kind" {
+								return true
+							}
+						}
+					}
+					if fl, ok := v.(*ssa.Field); ok {
+						if tn, f, _ := fieldOf(fl); tn == "Status" && f == "Kind" {
+							return true
+						}
+					}
+					return false
+				}
+				if !(isErrKind(bo.X) && isKind(bo.Y)) && !(isErrKind(bo.Y) && isKind(bo.X)) {
+					continue
+				}
+				// its true edge leads to the fallback Insert
+				for _, ib := range allInstrs(cs) {
+					w, ok := ib.In.(*ssa.Call)
+					if !ok || !w.Call.IsInvoke() || w.Call.Method.Name() != "Insert" {
+						continue
+					}
+					for _, ref := range *bo.Referrers() {
+						if iff, ok := ref.(*ssa.If); ok {
+							t := iff.Block().Succs[0]
+							if t == w.Block() || blockReachesAvoidingBlock(t, w.Block(), iff.Block()) {
+								applied = true
+							}
+						}
+					}
+				}
+			}
+			r.checkP([]string{"C14", "C15"}, applied, "reconciler.(incremental).commitStatus|a retry's result is applied while the object still shows this reconciler's Error", c.posStr(cs.Pos()), "the fallback write is also taken when the current status is the Error written for the previous attempt", "when the status commit of a retry loses the revision check to an unrelated write (another reconciler's status), the result is dropped although the object still carries this reconciler's Error: the retry was already forgotten (success) or is not re-queued (failure), objects in Error are skipped by the change stream, so the object stays in Error for ever")
 		}
 		r.check(good, "reconciler.(incremental).commitStatus|failed results are queued", c.posStr(cs.Pos()), "result.err != nil (status written) -> retries.Add(..., result.err)", "commitStatus does not queue a retry for a failed result: the object stays in Error forever")
 	} else {
@@ -660,49 +716,89 @@ func ruleReconcilerWrites(c *Ctx, r *Reporter) {
 				}
 				r.check(good, key, pos, "status written with CompareAndSwap on the revision that was reconciled", "the status is not written with CompareAndSwap guarded by the reconciled revision: a newer version of the object is overwritten")
 			case m == "Insert" && who == "reconciler.(incremental).commitStatus":
-				need := map[string]bool{"errors.Is": false, "exists": false, "Kind": false, "ID": false}
-				for _, f := range factsAt(call.Block()) {
-					if !f.Val {
-						continue
-					}
-					switch x := f.Cond.(type) {
-					case *ssa.Call:
-						if c.calleeName(x) == "errors.Is" {
-							need["errors.Is"] = true
+				// guard on every way into the block: revision mismatch on an existing object, and the
+				// object's status is either still the pending request that was reconciled (same id) or
+				// the Error this reconciler wrote for its previous attempt
+				collect := func(facts []edgeFact) []string {
+					need := map[string]bool{"errors.Is": false, "exists": false, "Kind": false}
+					pendingKind, errorKind, id := false, false, false
+					for _, f := range facts {
+						if !f.Val {
+							continue
 						}
-					case *ssa.Extract:
-						need["exists"] = true
-					case *ssa.BinOp:
-						s := x.String()
-						_ = s
-						for _, op := range []ssa.Value{x.X, x.Y} {
-							if p, ok := isLoad(op); ok {
-								if fa, ok := p.(*ssa.FieldAddr); ok {
-									_, fld, _ := fieldOf(fa)
+						switch x := f.Cond.(type) {
+						case *ssa.Call:
+							if c.calleeName(x) == "errors.Is" {
+								need["errors.Is"] = true
+							}
+						case *ssa.Extract:
+							need["exists"] = true
+						case *ssa.BinOp:
+							isKind, isID := false, false
+							glob := ""
+							for _, op := range []ssa.Value{x.X, x.Y} {
+								if p, ok := isLoad(op); ok {
+									if fa, ok := p.(*ssa.FieldAddr); ok {
+										_, fld, _ := fieldOf(fa)
+										if fld == "Kind" || fld == "kind" {
+											isKind = true
+										}
+										if fld == "ID" || fld == "id" {
+											isID = true
+										}
+									}
+									if g, ok := p.(*ssa.Global); ok {
+										glob = g.Name()
+									}
+								}
+								if fl, ok := op.(*ssa.Field); ok {
+									_, fld, _ := fieldOf(fl)
 									if fld == "Kind" || fld == "kind" {
-										need["Kind"] = true
-									}
-									if fld == "ID" || fld == "id" {
-										need["ID"] = true
+										isKind = true
 									}
 								}
 							}
-							if fl, ok := op.(*ssa.Field); ok {
-								_, fld, _ := fieldOf(fl)
-								if fld == "Kind" || fld == "kind" {
-									need["Kind"] = true
+							if isKind && x.Op == token.EQL {
+								switch glob {
+								case "StatusKindPending":
+									pendingKind = true
+								case "StatusKindError":
+									errorKind = true
 								}
+							}
+							if isID && x.Op == token.EQL {
+								id = true
 							}
 						}
 					}
+					if (pendingKind && id) || errorKind {
+						need["Kind"] = true
+					}
+					var miss []string
+					for k, v := range need {
+						if !v {
+							miss = append(miss, k)
+						}
+					}
+					sort.Strings(miss)
+					return miss
 				}
 				var miss []string
-				for k, v := range need {
-					if !v {
-						miss = append(miss, k)
+				blk := call.Block()
+				if len(blk.Preds) <= 1 {
+					miss = collect(factsAt(blk))
+				} else {
+					for _, p := range blk.Preds {
+						facts := append([]edgeFact{}, factsAt(p)...)
+						if ef, ok := edgeFactOn(p, blk); ok {
+							facts = append(facts, ef)
+						}
+						if m2 := collect(facts); len(m2) > 0 {
+							miss = m2
+						}
 					}
 				}
-				r.check(len(miss) == 0, key, pos, "fallback Insert only for a revision mismatch on an existing object that is still Pending with the same id", "the status-only fallback Insert lacks a guard ("+strings.Join(miss, ",")+"): a stale result overwrites a version that was changed meanwhile, or re-creates a deleted object")
+				r.check(len(miss) == 0, key, pos, "fallback Insert only for a revision mismatch on an existing object whose status is still the pending request that was reconciled (same id) or this reconciler's own Error", "the status-only fallback Insert lacks a guard ("+strings.Join(miss, ",")+"; Kind = `Pending with the same id` or `Error`): a stale result overwrites a version that was changed meanwhile, or re-creates a deleted object")
 			case m == "Insert" && who == "reconciler.(reconciler).refreshLoop":
 				// under ok && rev == newRev where (obj,newRev,ok) = Table.Get(wtxn,...) with the txn used for Insert
 				good := false
@@ -1019,4 +1115,26 @@ func boolPhiTrueFromInitWatch(phi *ssa.Phi) bool {
 	}
 	walk(phi)
 	return found
+}
+
+// blockReachesAvoidingBlock: path from a to b that does not pass through block avoid.
+func blockReachesAvoidingBlock(a, b, avoid *ssa.BasicBlock) bool {
+	seen := map[*ssa.BasicBlock]bool{avoid: true}
+	var walk func(x *ssa.BasicBlock) bool
+	walk = func(x *ssa.BasicBlock) bool {
+		if x == b {
+			return true
+		}
+		if seen[x] {
+			return false
+		}
+		seen[x] = true
+		for _, s := range x.Succs {
+			if walk(s) {
+				return true
+			}
+		}
+		return false
+	}
+	return walk(a)
 }
